@@ -27,7 +27,6 @@ ENV.update({
 # packages rewritten by the instrumenter in the sched flavour
 INSTRUMENTED = [
     "github.com/grailbio/bigslice/exec",
-    "github.com/grailbio/bigslice/metrics",
     "github.com/grailbio/base/limiter",
     "github.com/grailbio/base/sync/ctxsync",
     "github.com/grailbio/base/sync/once",
@@ -39,7 +38,7 @@ def run(cmd, cwd=None, capture=True, check=True):
     p = subprocess.run(cmd, cwd=cwd, env=ENV, stdout=subprocess.PIPE if capture else None,
                        stderr=subprocess.PIPE if capture else None, text=True)
     if check and p.returncode != 0:
-        sys.stderr.write("build.py: command failed: %s\n%s\n%s\n" % (" ".join(cmd), p.stdout or "", p.stderr or ""))
+        sys.stderr.write("build.py: command failed: %s\n%s\n" % (" ".join(cmd), (p.stderr or "")[-6000:]))
         sys.exit(2)
     return p.stdout
 
@@ -151,7 +150,7 @@ def instrument(ov, mods):
         json.dump({"Replace": ov}, f, indent=1)
     # export data for every dependency
     out = run(["go", "list"] + MODFILE + ["-overlay", ovfile] + GCFLAGS + ["-export", "-deps", "-f",
-              "{{.ImportPath}} {{.Export}}", "./cmd/..."], cwd=HARNESS)
+              "{{.ImportPath}} {{.Export}}", "./cmd/" + CMD[0]], cwd=HARNESS)
     exports = os.path.join(BUILD, "exports-%s.txt" % CMD[0])
     with open(exports, "w") as f:
         f.write(out)
@@ -175,7 +174,9 @@ def main():
     ov = base_overlay(mods)
     tags = ["verif"]
     flags = list(GCFLAGS)
-    if flavour == "sched":
+    if flavour in ("sched", "schedm"):
+        if flavour == "schedm":
+            INSTRUMENTED.append("github.com/grailbio/bigslice/metrics")
         ov = instrument(ov, mods)
         tags.append("vsched")
     elif flavour == "race":
